@@ -95,7 +95,7 @@ pub fn absorb(out: &mut Outcome, prop: &str, sc_cfg: &Config, ops: &[Op], t: &Tr
     for s in &t.steps {
         let op = &ops[s.op.min(ops.len().saturating_sub(1))];
         match (&s.res, op) {
-            (StepRes::Proc { n_out, .. }, Op::Process { path, valid, slack_in, slack_out, slices, ragged }) => {
+            (StepRes::Proc { n_out, .. }, Op::Process { path, valid, slack_in, slack_out, slices, ragged, .. }) => {
                 if *ragged != 0 {
                     out.cov.fault("F11_ragged_channel_lengths", 1);
                 }
@@ -382,7 +382,7 @@ fn gen_c07_ultra(seed: u64, tier: Tier) -> Scenario {
         sc.config.interp = 1;
     }
     sc.signal = Signal::Const { v: 0.5 };
-    let frames: f64 = if tier == Tier::Quick { 2.0e7 } else { 1.2e8 };
+    let frames: f64 = if tier == Tier::Quick { 3.0e7 } else { 4.0e8 };
     let per_call = match kind {
         Kind::FastIn | Kind::SincIn => sc.config.chunk as f64,
         _ => sc.config.chunk as f64 / ratio,
@@ -543,7 +543,8 @@ impl Acct {
                 self.clean = false;
                 self.settle = 2;
                 let m = cfg.max_rel;
-                let v = if *relative_api { (cfg.ratio * *rel).max(cfg.ratio / m) } else { (cfg.ratio * *rel).clamp(cfg.ratio / m, cfg.ratio * m) };
+                let v = setratio_effective(cfg, *rel, *relative_api);
+                let _ = m;
                 self.r = v;
                 self.bound = 2.0 * (v * (self.l + 1.0 / v + 3.0) + 3.0) + 2.0;
             }
